@@ -273,6 +273,8 @@ FINDINGS = [
          what="device calls with unpacked arguments (led.blink(**{\"duration_ms\": 7}), rgb.on(**{\"red\": 10}), SerialMonitor(**{\"baud_rate\": 57600})) were accepted and bound to the defaults", cases=[]),
     dict(id="KF-C07-statement-after-multiline-docstring", property="C07", status="fixed", commit="b9f916c",
          what="a statement written after ';' on the closing line of a multi-line docstring / parenthesised import vanished with the blanked lines", cases=[]),
+    dict(id="KF-C07-keyword-prefixed-spacing", property="C07", status="fixed", commit="997461e",
+         what="optional spaces changed the outcome for statements whose first name starts like a continuation keyword (else_led . on ( ) rejected, led . on ( ) accepted)", cases=[]),
     dict(id="KF-C14-lcd-rebind", property="C14", status="open", commit=None,
          what="one name bound first to a parallel LCD and later to an I2C LCD (or the reverse): both libraries are requested, but the emitter keeps only the first display (one header, one object); outside the documented style, like KF-C05-rebind",
          cases=c14_rebind_cases()),
